@@ -329,6 +329,27 @@ func rewriteFile(p *packages.Package, f *ast.File, name string) error {
 // wrapped as zzsimhook.Yv(site, call) (the yield happens after the operation), which also turns
 // a loop that spins on an atomic flag into a sequence of scheduler steps the simulator can see.
 func (r *rewriter) atomics(f *ast.File) {
+	// calls that are a whole statement of a statement list (a yield can be put in front of them)
+	stmtCalls := map[*ast.CallExpr]bool{}
+	ast.Inspect(f, func(n ast.Node) bool {
+		var list []ast.Stmt
+		switch b := n.(type) {
+		case *ast.BlockStmt:
+			list = b.List
+		case *ast.CaseClause:
+			list = b.Body
+		case *ast.CommClause:
+			list = b.Body
+		}
+		for _, st := range list {
+			if es, ok := st.(*ast.ExprStmt); ok {
+				if c, ok := es.X.(*ast.CallExpr); ok {
+					stmtCalls[c] = true
+				}
+			}
+		}
+		return true
+	})
 	ast.Inspect(f, func(n ast.Node) bool {
 		call, ok := n.(*ast.CallExpr)
 		if !ok {
@@ -356,6 +377,12 @@ func (r *rewriter) atomics(f *ast.File) {
 			return true
 		}
 		sig := fn.Type().(*types.Signature)
+		if sig.Results().Len() == 0 && stmtCalls[call] {
+			// x.Store(v) as a statement: an interleaving point before the store
+			r.addP(1, call.Pos(), call.Pos(), lit(fmt.Sprintf("%s.Yield(%q); ", hookName, r.site(call.Pos())+"#atomic-store")))
+			st.Rewritten["atomic_store"]++
+			return true
+		}
 		if sig.Results().Len() != 1 {
 			return true
 		}
